@@ -267,3 +267,56 @@ def close(a, b, rel=1e-9, abs_=1e-12):
     if math.isinf(a) or math.isinf(b):
         return a == b
     return abs(a - b) <= max(abs_, rel * max(abs(a), abs(b)))
+
+
+def pmap_isolated(func, items, nproc=None, timeout=600):
+    """Like pmap, but every item runs in its own freshly forked child, so a native crash (numba kernels indexing out of
+    bounds corrupt the heap) only loses that one item. Returns [('ok', value) | ('crash', description)]."""
+    import select
+    ctx = mp.get_context('fork')
+    nproc = nproc or NPROC
+    items = list(items)
+    results = [None] * len(items)
+    running = {}     # fileno -> (index, process, conn, started)
+    nxt = 0
+
+    def child(conn, it):
+        try:
+            conn.send(('ok', func(it)))
+        except BaseException:
+            try:
+                conn.send(('err', traceback.format_exc()))
+            except BaseException:
+                pass
+        finally:
+            conn.close()
+            os._exit(0)
+
+    while nxt < len(items) or running:
+        while nxt < len(items) and len(running) < nproc:
+            pc, cc = ctx.Pipe(duplex=False)
+            p = ctx.Process(target=child, args=(cc, items[nxt]))
+            p.start()
+            cc.close()
+            running[pc.fileno()] = (nxt, p, pc, time.time())
+            nxt += 1
+        ready, _, _ = select.select([v[2] for v in running.values()], [], [], 1.0)
+        for conn in ready:
+            idx, p, pc, t0 = running.pop(conn.fileno())
+            try:
+                st, val = conn.recv()
+                if st == 'err':
+                    raise HarnessError('worker raised:\n' + val)
+                results[idx] = ('ok', val)
+            except EOFError:
+                p.join(5)
+                results[idx] = ('crash', 'child died with exit code %r' % (p.exitcode,))
+            conn.close()
+            p.join(5)
+        for fn, (idx, p, pc, t0) in list(running.items()):
+            if time.time() - t0 > timeout:
+                p.kill()
+                running.pop(fn)
+                pc.close()
+                results[idx] = ('crash', 'timeout after %ds' % timeout)
+    return results
